@@ -233,6 +233,7 @@ class Interp(object):
         self.stub_modules = {}  # real module name -> object used instead
         self.frames = []
         self.effects = []
+        self.dict_order_iterations = 0
         self.ambient_reads = []
         self.outputs = []
         self.while_bound = 3
@@ -480,6 +481,8 @@ class Interp(object):
         vc = self.vc
         t = type(it)
         if t is SymList:
+            if it.origin == "symkey-view":
+                self.dict_order_iterations += 1
             for pres, v in list(it.elems):
                 yield pres, v
             return
@@ -488,6 +491,8 @@ class Interp(object):
                 yield pres, v
             return
         if t is SymDict:
+            if it.symkeys:
+                self.dict_order_iterations += 1
             for k in list(it.keys):
                 yield it.pres[k], k
             return
